@@ -162,7 +162,7 @@ def run(ctx):
     n = 0
     for name, text in model_runs(ctx.quick):
         res = run_cfg(ctx, name, text)
-        for doc in res.printed:
+        for doc in ctx.sample([d for d in res.printed if "kind" in d], 50000):
             if "kind" in doc:
                 n += 1
                 replay_doc(ctx, doc, n, ("AC", "YW", "xy")[n % 3] if len(text.split("Letters = {")[1].split("}")[0].split(",")) == 2 else "ACD")
